@@ -312,6 +312,8 @@ def run(ctx: Ctx):
     _clog_prob_masks(ctx)
     _threshold_surrogate_is_exact(ctx)
     _estimate_rank(ctx)
+    _score_term_reads_the_corrected_integrand(ctx)
+    _both_parameterisations_normalised(ctx)
     _callback_results_not_mutated(ctx)
     plumbing(ctx, "S6")
     return dict(
@@ -556,10 +558,81 @@ def _callback_results_not_mutated(ctx: Ctx):
     col.floor("estimator_calls_checked", n_sites, 4)
 
 
+
+def _score_term_reads_the_corrected_integrand(ctx: Ctx):
+    """S12: the direct estimator's value is mean(f - c + mu_c); its score-function term must multiply log p(b) by the SAME
+    corrected integrand (detached). If the term is formed from an earlier version of the variable (before the control variate
+    is applied) the value stays unbiased but the expected gradient gains grad mu_c. Decided by def-use: the integrand read by
+    the score term and the one read by the Monte Carlo mean have the same reaching definitions."""
+    from sa.defuse import ReachingDefs
+    col, pkg = ctx.col, ctx.pkg
+    f = pkg.func("_mc::DirectEstimator.__call__")
+    rel = f.module.relname
+    rd = ReachingDefs(f.node)
+    # the score term: <X>.detach() * <log-probability of the sample>
+    score_uses, mean_uses = [], []
+    for n in own_nodes(f.node):
+        if isinstance(n, ast.BinOp) and isinstance(n.op, ast.Mult):
+            for a, b in ((n.left, n.right), (n.right, n.left)):
+                if isinstance(a, ast.Call) and isinstance(a.func, ast.Attribute) and a.func.attr == "detach" \
+                        and isinstance(a.func.value, ast.Name) and any(
+                            isinstance(c, ast.Call) and isinstance(c.func, ast.Attribute) and c.func.attr == "log_prob"
+                            for c in rd.derives(b).calls()):
+                    score_uses.append(a.func.value)
+    names = {x.id for x in score_uses}
+    for n in own_nodes(f.node):
+        if isinstance(n, ast.Assign) and isinstance(n.value, ast.Call) and isinstance(n.value.func, ast.Attribute) \
+                and n.value.func.attr == "mean" and isinstance(n.value.func.value, ast.Name) and n.value.func.value.id in names \
+                and len(n.targets) == 1 and u(n.targets[0]) == n.value.func.value.id:
+            mean_uses.append(n.value.func.value)
+    if len(score_uses) != 1 or len(mean_uses) != 1:
+        col.undecided(f"{rel}::DirectEstimator.__call__: score term / Monte Carlo mean of the integrand not recognised "
+                      f"({len(score_uses)} / {len(mean_uses)})")
+        return
+    ds, dm = rd.defs_of(score_uses[0]), rd.defs_of(mean_uses[0])
+    col.ob("G16", "S12", f"{rel}::DirectEstimator.__call__::score-term-reads-the-corrected-integrand", ds == dm,
+           f"the score-function term reads `{score_uses[0].id}` as defined at line(s) {sorted(d.line for d in ds)} while the value "
+           f"averages the version from line(s) {sorted(d.line for d in dm)}: the control variate is missing from the score term, so "
+           f"the expected gradient is off by the gradient of cv_mean", rel, score_uses[0].lineno,
+           sample=dict(score=sorted(d.line for d in ds), mean=sorted(d.line for d in dm)))
+
+
+def _both_parameterisations_normalised(ctx: Ctx):
+    """S13: a relaxed categorical may be given probs or logits; either is normalised over the last axis before it is stored
+    (probs / probs.sum(-1), logits.log_softmax(-1)): tlog_prob, clog_prob and csample assume logsumexp(logits) = 0."""
+    col, pkg = ctx.col, ctx.pkg
+    f = pkg.func("_straight_through::GumbelOneHotCategorical.__init__")
+    rel = f.module.relname
+    n_ = 0
+    for st in own_nodes(f.node):
+        if not isinstance(st, ast.Assign):
+            continue
+        tg = [t for t in st.targets if isinstance(t, ast.Attribute) and u(t.value) == "self" and t.attr in ("probs", "logits")]
+        if not tg:
+            continue
+        n_ += 1
+        v = st.value
+        norm = False
+        for x in ast.walk(v):
+            if isinstance(x, ast.Call) and isinstance(x.func, ast.Attribute) and x.func.attr in ("log_softmax", "softmax", "logsumexp", "sum") \
+                    and x.args and u(x.args[0]) == "-1":
+                norm = True
+            if isinstance(x, ast.Call) and call_name(x).split(".")[-1] in ("log_softmax", "softmax", "logsumexp") and len(x.args) >= 2 and u(x.args[1]) == "-1":
+                norm = True
+        col.ob("G13", "S13", f"{rel}::GumbelOneHotCategorical.__init__::{tg[0].attr}-normalised-over-the-event-axis", norm,
+               f"`{u(st)[:80]}` stores the {tg[0].attr} as given: the density of the relaxed sample and the conditional sampler assume "
+               f"a normalised parameter, so with un-normalised {tg[0].attr} the probabilities over the one-hot support do not sum "
+               f"to one and log P(z) != log P(H(z)) + log P(z | H(z))", rel, st.lineno)
+    col.floor("gumbel_parameter_stores", n_, 2)
+
+
 def _mutants():
     from selftest.mutate import Mutant as M
     F = "_mc.py"
     return [
+        M("score-term-before-the-control-variate", "_mc.py", "            fb = fb - cvb + c\n        log_pb = self.proposal.log_prob(b)\n        deriv = (fb.detach() * log_pb).mean(0)", "            fb_ = fb - cvb + c\n        else:\n            fb_ = fb\n        log_pb = self.proposal.log_prob(b)\n        deriv = (fb.detach() * log_pb).mean(0)\n        fb = fb_", "score-term-reads-the-corrected-integrand"),
+        M("gumbel-logits-stored-raw", "_straight_through.py", "self._param = self.logits = logits.log_softmax(-1)", "self._param = self.logits = logits", "logits-normalised-over-the-event-axis"),
+        M("pascal-table-row-stride", "_combinatorics.py", "binom = binom.flatten()[length + count * (length_ + 1)]", "binom = binom.flatten()[length + count * (count_ + 1)]", "flat-index-stride-is-the-column-count"),
         M("straight-through-rounds", "_straight_through.py", "b = b + (z - z.detach())", "b = b + z - z.detach()", "straight-through-surrogate-formed-first"),
         M("log-estimate-keeps-sample-axis", "_mc.py", "v = fb.log() + deriv - deriv.detach() + fb_lmax.squeeze(0)", "v = fb.log() + deriv - deriv.detach() + fb_lmax", "estimate-has-the-batch-shape"),
         M("mh-divides-callback-result-in-place", "_mc.py", "v = v / num_kept", "v /= num_kept", "callback-result-not-modified-in-place"),
